@@ -394,5 +394,18 @@ def run(ctx):
     persistence(ctx)
     release_and_overrides(ctx)
     shared(ctx)
+    ob10 = ctx.ob("C04.10", "the refresher's commands (precharge-all, refresh, ZQ calibration) reach EVERY rank: on the phase the multiplexer steers them to, all chip selects "
+                            "are asserted for any refresher command (shared with C02.6, truth table of the extracted steerer on 2 and 4 phases)", 2)
+    from ..report import Ctx as _Ctx
+    from . import c02 as _c02
+    _sub = _Ctx("C02", ctx.tier, ctx.seed, ctx.repo)
+    _c02.rank_decode(_sub)
+    for _o in _sub.obligations:
+        for _i in _o.instances:
+            ob10.instance(_o.oid + ": " + _i["what"], _i["detail"] or "ok")
+        for _r in _o.refutations:
+            ob10.refute(_o.oid + ":" + _r["key"], _r["msg"], _r.get("loc"))
+        for _u in _o.unknowns:
+            ob10.unknown(_u)
     ctx.assume("numeric service-latency bound and long-run rate under adversarial traffic are NOT decided (they need the time a bank machine "
                "takes to reach its idle state); tREFI >= 100 cycles is enforced by the Refresher itself")
